@@ -107,6 +107,11 @@ def main(seed, ncases, driver, out, mode="all"):
                         cmp("U_inv", dense(Vi[i, nb, n], (si, N)), dense(Ve[i, nb, n], (si, len(rest))) @ LB.conj().T, n, [i, nb])
                         cmp("U", dense(Ui[nb, i, n], (N, si)), RB @ dense(Ue[nb, i, n], (len(rest), si)), n, [nb, i])
                         cmp("U_inv", dense(Vi[nb, i, n], (N, si)), RB @ dense(Ve[nb, i, n], (len(rest), si)), n, [nb, i])
+                if n >= 1:     # the implicit-implicit block: linear operators on the ambient space, the explicit result embedded in the complement
+                    LB = L[:, rest]; RB = R[:, rest]; nr = len(rest)
+                    cmp("H_tilde", dense(Hi[nb, nb, n], (N, N)), RB @ dense(He[nb, nb, n], (nr, nr)) @ LB.conj().T, n, [nb, nb])
+                    cmp("U", dense(Ui[nb, nb, n], (N, N)), RB @ dense(Ue[nb, nb, n], (nr, nr)) @ LB.conj().T, n, [nb, nb])
+                    cmp("U_inv", dense(Vi[nb, nb, n], (N, N)), RB @ dense(Ve[nb, nb, n], (nr, nr)) @ LB.conj().T, n, [nb, nb])
             distinct += 1
             if bad: failures.append(dict(desc, kind="implicit-differs-from-explicit", **bad))
         except Exception as e:
